@@ -18,6 +18,7 @@ import (
 	"strconv"
 	"strings"
 	"sync"
+	"sync/atomic"
 	"time"
 
 	"github.com/samber/ro"
@@ -189,7 +190,38 @@ func runCutIn(c *Case, k int) (trace, drops []string, rel int, closed int, flag 
 	return append([]string{}, rec.trace...), append([]string{}, rec.drops...), rel, closed, flag
 }
 
+// quickGuard runs f with a short deadline (the cases of these kinds take microseconds). After a few
+// timeouts in one process the remaining cases are not run at all: a change that makes every case
+// hang must not turn a check into hours of 20 s timeouts (main.go runCaseGuarded).
+var hungCases int32
+
+func quickGuard(f func() string, onTimeout string) string {
+	if atomic.LoadInt32(&hungCases) >= 3 {
+		return onTimeout
+	}
+	done := make(chan string, 1)
+	go func() {
+		defer func() {
+			if r := recover(); r != nil {
+				done <- "harness-panic=" + strings.ReplaceAll(fmt.Sprint(r), " ", "_")
+			}
+		}()
+		done <- f()
+	}()
+	select {
+	case s := <-done:
+		return s
+	case <-time.After(3 * time.Second):
+		atomic.AddInt32(&hungCases, 1)
+		return onTimeout
+	}
+}
+
 func runCutInCase(c *Case) string {
+	return quickGuard(func() string { return runCutInCase1(c) }, "res "+c.id+" harness-timeout")
+}
+
+func runCutInCase1(c *Case) string {
 	k, _ := strconv.Atoi(c.get("k", "0"))
 	trace, drops, rel, closed, flag := runCutIn(c, k)
 	if flag != "" {
@@ -224,11 +256,18 @@ func genCutIn(tier string, seed int64, only string) []*Case {
 	id := 0
 	emit := func(base []string) {
 		probeCase := newCase(0, append([]string{"kind", "cutin"}, base...)...)
-		trace, _, _, _, flag := runCutIn(probeCase, 0)
-		if flag != "" {
+		n := 2 // if the undisturbed run itself hangs: k = 1..3, so that the hang is reported on a case
+		if quickGuard(func() string {
+			trace, _, _, _, flag := runCutIn(probeCase, 0)
+			if flag != "" {
+				return "skip"
+			}
+			n = len(trace)
+			return ""
+		}, "") == "skip" {
 			return
 		}
-		for k := 1; k <= len(trace)+1; k++ {
+		for k := 1; k <= n+1; k++ {
 			for _, v := range cutVariants(r, tier) {
 				id++
 				kv := append([]string{"kind", "cutin"}, base[:len(base)-4]...)
